@@ -120,7 +120,14 @@ fn check_state(rep: &mut Reporter, case: &Case, k: usize, id: &Identity) -> bool
     true
 }
 
-fn one(rep: &mut Reporter, seed: u64, thorough: bool) {
+/// Generate (and, with `checks`, judge) one identity history. Returns the world and the changes
+/// written so that C06 can run its self-differential on the same kind of history.
+pub fn one(rep: &mut Reporter, seed: u64, thorough: bool, checks: bool) -> Option<(World, Vec<(Oid, Vec<usize>)>)> {
+    let r = one_inner(rep, seed, thorough, checks);
+    r.map(|(w, c)| (w, c.ops.iter().map(|o| (o.oid, o.parents.clone())).collect()))
+}
+
+fn one_inner(rep: &mut Reporter, seed: u64, thorough: bool, checks: bool) -> Option<(World, Case)> {
     let mut rng = Rng::new(seed);
     let nd = 1 + rng.usize(5);
     let nactors = nd + 3; // nd delegates, 2 candidates, 1 pure stranger
@@ -142,7 +149,7 @@ fn one(rep: &mut Reporter, seed: u64, thorough: bool) {
     w.set_refs(&typename, &object, &case.prefix_tips(1), &ns);
     let Ok(Some((mut prev, mut prev_snap))) = eval_typed::<Identity>(&w, &typename, &object) else {
         rep.inconclusive("root identity does not evaluate", json!({}));
-        return;
+        return None;
     };
     rep.eval();
     let mut fresh = 0u64;
@@ -280,7 +287,7 @@ fn one(rep: &mut Reporter, seed: u64, thorough: bool) {
             Ok(Some(x)) => x,
             other => {
                 rep.inconclusive("identity evaluation failed", json!({"result": format!("{:?}", other.map(|o| o.map(|_| ()))), "case": case.json()}));
-                return;
+                return None;
             }
         };
         rep.eval();
@@ -293,8 +300,8 @@ fn one(rep: &mut Reporter, seed: u64, thorough: bool) {
                 eprintln!("REJECTED op {idx} actor {actor} delegate={actor_is_current_delegate} parents={:?} {}", case.ops[idx].parents, serde_json::to_string(&case.ops[idx].actions).unwrap());
             }
         }
-        if !check_state(rep, &case, idx + 1, &cur) {
-            return;
+        if checks && !check_state(rep, &case, idx + 1, &cur) {
+            return None;
         }
         if cur.current != prev.current {
             rep.count("adoptions-observed");
@@ -306,32 +313,49 @@ fn one(rep: &mut Reporter, seed: u64, thorough: bool) {
         let a = strip(&prev_snap.state, &["timeline"]);
         let b = strip(&cur_snap.state, &["timeline"]);
         let applied_last = cur_snap.state["timeline"].as_array().and_then(|t| t.last()).and_then(|v| v.as_str()) == Some(&oid.to_string()) || !cur_snap.entries.contains(&oid);
-        if !actor_is_current_delegate && applied_last {
+        if checks && !actor_is_current_delegate && applied_last {
             rep.count("checked.non-delegate-change-applied-last");
             if a != b {
                 let resurrected: Vec<usize> = cur_snap.entries.difference(&prev_snap.entries).filter(|o| **o != oid).filter_map(|o| case.ops.iter().position(|x| x.oid == *o)).collect();
-                let sig = if !resurrected.is_empty() {
+                // known mechanism: the new change is *concurrent* to every minimal revived change, whose
+                // `UnexpectedState` error is tolerated only while a concurrent change exists
+                let anc_of = |x: usize| -> BTreeSet<usize> {
+                    let mut out = BTreeSet::new();
+                    let mut stack = case.ops[x].parents.clone();
+                    while let Some(p) = stack.pop() {
+                        if out.insert(p) {
+                            stack.extend(case.ops[p].parents.clone());
+                        }
+                    }
+                    out
+                };
+                let minimal: Vec<usize> = resurrected.iter().copied().filter(|x| !anc_of(*x).iter().any(|a| resurrected.contains(a))).collect();
+                let new_anc = anc_of(idx);
+                let all_concurrent = minimal.iter().all(|x| !new_anc.contains(x) && !anc_of(*x).contains(&idx));
+                let sig = if !resurrected.is_empty() && all_concurrent {
                     "C04/non-delegate-change-alters-identity/by-reviving-concurrent-branch"
+                } else if !resurrected.is_empty() {
+                    "C04/non-delegate-change-alters-identity/by-reviving-other-changes"
                 } else if actor == stranger {
                     "C04/stranger-change-alters-identity"
                 } else {
                     "C04/non-delegate-of-current-document-alters-identity"
                 };
                 rep.violation(sig, json!({"op": idx, "revived_ops": resurrected, "before": a, "after": b, "case": case.json()}));
-                return;
+                return None;
             }
         }
         // accepted revisions are never edited or redacted (change applied last => exact attribution)
-        if applied_last {
+        if checks && applied_last {
             for r in prev.revisions().filter(|r| r.is_accepted()) {
                 match cur.revision(&r.id) {
                     None => {
                         rep.violation("C04/accepted-revision-redacted", json!({"op": idx, "revision": r.id.to_string(), "case": case.json()}));
-                        return;
+                        return None;
                     }
                     Some(r2) if r2.title != r.title || r2.description != r.description || r2.doc != r.doc => {
                         rep.violation("C04/accepted-revision-edited", json!({"op": idx, "revision": r.id.to_string(), "case": case.json()}));
-                        return;
+                        return None;
                     }
                     _ => {}
                 }
@@ -346,6 +370,7 @@ fn one(rep: &mut Reporter, seed: u64, thorough: bool) {
     if rep.wants_sample() && nontrivial && case.ops.len() > 5 {
         rep.sample(json!({"case": case.json(), "final_current": prev.current.to_string(), "revisions": prev.revisions().count()}));
     }
+    Some((w, case))
 }
 
 pub fn run(args: &Args) {
@@ -353,12 +378,12 @@ pub fn run(args: &Args) {
     if let Some(path) = &args.replay {
         let w = vcommon::load_replay(path);
         let seed = w["case_seed"].as_u64().unwrap_or(args.seed);
-        one(&mut rep, seed, args.thorough);
+        one(&mut rep, seed, args.thorough, true);
         rep.finish();
         return;
     }
-    for k in 0..args.budget(480, 8_000) {
-        one(&mut rep, args.case_seed(k), args.thorough);
+    for k in 0..args.budget(1_600, 16_000) {
+        one(&mut rep, args.case_seed(k), args.thorough, true);
     }
     rep.finish();
 }
